@@ -550,7 +550,7 @@ func c14Subscription(p *Prog, r *Report) {
 		g := p.Global("proxycore", "allEvents")
 		uses := false
 		eachInstr(reg, func(in ssa.Instruction) {
-			if ld, ok := in.(*ssa.UnOp); ok && ld.X == g {
+			if ld, ok := in.(*ssa.UnOp); ok && sameGlobal(ld.X, g) {
 				uses = true
 			}
 		})
